@@ -6,6 +6,7 @@ package main
 import (
 	"fmt"
 	"go/types"
+	"math/big"
 
 	"golang.org/x/tools/go/ssa"
 )
@@ -39,7 +40,7 @@ func registerVAPI(I map[string]intrinsicFn) {
 	P := otrPkg + "."
 	scalar := func(bits int) intrinsicFn {
 		return func(w *Worker, fn *ssa.Function, a []Value) Value {
-			return w.tc.Var(w.symName(w.concStr(a[0], "symbol name")), bits)
+			return w.input(w.symName(w.concStr(a[0], "symbol name")), bits)
 		}
 	}
 	I[P+"vU8"] = scalar(8)
@@ -48,16 +49,27 @@ func registerVAPI(I map[string]intrinsicFn) {
 	I[P+"vU64"] = scalar(64)
 	I[P+"vInt"] = scalar(64)
 	I[P+"vBool"] = func(w *Worker, fn *ssa.Function, a []Value) Value {
-		v := w.tc.Var(w.symName(w.concStr(a[0], "symbol name")), 1)
+		v := w.input(w.symName(w.concStr(a[0], "symbol name")), 1)
 		return w.tc.Eq(v, w.tc.Const(1, 1))
 	}
 	I[P+"vChoose"] = func(w *Worker, fn *ssa.Function, a []Value) Value {
 		name := w.concStr(a[0], "choice name")
 		n := w.concInt(a[1], "choice count")
+		full := w.symName(name)
+		if w.h.Concrete != nil {
+			k := 0
+			if v, ok := w.h.Concrete[full]; ok {
+				k = int(v.Uint64())
+			}
+			if k >= n {
+				k = 0
+			}
+			return w.tc.Const(64, uint64(k))
+		}
 		k := w.choose(n)
-		w.events = append(w.events, fmt.Sprintf("%s=%d", name, k))
+		w.choices = append(w.choices, fmt.Sprintf("%s=%d", name, k))
 		// record as a (concrete) input for replay
-		v := w.tc.Var(w.symName(name), 32)
+		v := w.tc.Var(full, 32)
 		w.assertSilently(w.tc.Eq(v, w.tc.Const(32, uint64(k))))
 		return w.tc.Const(64, uint64(k))
 	}
@@ -66,15 +78,15 @@ func registerVAPI(I map[string]intrinsicFn) {
 		n := w.concInt(a[1], "length")
 		s := make(Slice, n)
 		for i := range s {
-			s[i] = w.tc.Var(fmt.Sprintf("%s[%d]", name, i), 8)
+			s[i] = w.input(fmt.Sprintf("%s[%d]", name, i), 8)
 		}
 		return s
 	}
 	I[P+"vBig"] = func(w *Worker, fn *ssa.Function, a []Value) Value {
 		name := w.symName(w.concStr(a[0], "symbol name"))
 		bits := w.concInt(a[1], "bits")
-		v := w.tc.Var(name, bits)
-		return w.newBig(BigVal{T: w.tc.Zext(v, bits+1)})
+		v := w.input(name, bits)
+		return w.newBig(w.normBig(BigVal{T: w.tc.Zext(v, bits+1)}))
 	}
 	I[P+"vAssume"] = func(w *Worker, fn *ssa.Function, a []Value) Value {
 		w.assume(a[0].(*Term))
@@ -205,59 +217,122 @@ func registerVAPI(I map[string]intrinsicFn) {
 			}
 		}
 		w.events = append(w.events, s)
-		if w.eng.observe != nil {
-			w.eng.observe(w.h.Name, s)
-		}
 		return nil
 	}
 }
 
+// input returns a fresh symbolic input, or its fixed value in concrete mode.
+func (w *Worker) input(name string, bits int) *Term {
+	if w.h.Concrete != nil {
+		if v, ok := w.h.Concrete[name]; ok {
+			return w.tc.ConstBig(bits, v)
+		}
+		return w.tc.Const(bits, 0)
+	}
+	return w.tc.Var(name, bits)
+}
+
+// observeString mirrors vFmt in /verif/harness/vapi.go.
 func (w *Worker) observeString(v Value) string {
+	return w.observeTyped(v, nil)
+}
+
+func (w *Worker) observeTyped(v Value, t types.Type) string {
 	switch x := v.(type) {
+	case nil:
+		return "nil"
 	case Iface:
 		if x.T == nil {
 			return "nil"
 		}
-		return w.observeString(x.V)
-	case *Term:
-		if x.IsConst() {
-			if x.W == 0 {
-				if x.K == 1 {
-					return "true"
-				}
-				return "false"
-			}
-			return x.BigVal().String()
+		if x.T == hashMarker || x.T == opaqueMarker {
+			return "?"
 		}
-		return "?"
+		if types.Implements(x.T, errorIface) {
+			return "err"
+		}
+		return w.observeTyped(x.V, x.T)
+	case *Term:
+		if !x.IsConst() {
+			return "<sym>"
+		}
+		if x.W == 0 {
+			if x.K == 1 {
+				return "true"
+			}
+			return "false"
+		}
+		if t != nil && isSigned(t) {
+			return toSigned(x.BigVal(), x.W).String()
+		}
+		return x.BigVal().String()
 	case Str:
 		if x.Sym == nil {
 			return fmt.Sprintf("%q", x.S)
 		}
-		return "?"
+		return "<sym>"
 	case Slice:
 		if x == nil {
 			return "nil"
 		}
+		isBytes := false
+		var et types.Type
+		if t != nil {
+			if st, ok := t.Underlying().(*types.Slice); ok {
+				et = st.Elem()
+				if b, ok := et.Underlying().(*types.Basic); ok && b.Kind() == types.Uint8 {
+					isBytes = true
+				}
+			}
+		}
+		if isBytes {
+			bs := make([]byte, len(x))
+			for i, e := range x {
+				te := e.(*Term)
+				if !te.IsConst() {
+					return "<sym>"
+				}
+				bs[i] = byte(te.K)
+			}
+			return fmt.Sprintf("x%x", bs)
+		}
 		s := "["
 		for _, e := range x {
-			s += w.observeString(e) + " "
+			s += w.observeTyped(e, et) + " "
 		}
 		return s + "]"
+	case Array:
+		bs := make([]byte, len(x))
+		for i, e := range x {
+			te, ok := e.(*Term)
+			if !ok || te.W != 8 {
+				return "?"
+			}
+			if !te.IsConst() {
+				return "<sym>"
+			}
+			bs[i] = byte(te.K)
+		}
+		return fmt.Sprintf("x%x", bs)
 	case Ptr:
 		if x == nil {
 			return "nil"
 		}
 		if b, ok := (*x).(BigVal); ok {
 			if b.C != nil {
-				return b.C.String()
+				if b.C.Sign() < 0 {
+					return "0x-" + new(big.Int).Neg(b.C).Text(16)
+				}
+				return "0x" + b.C.Text(16)
 			}
-			return "?"
+			return "<sym>"
 		}
-		return "ptr"
+		return "?"
 	}
-	return fmt.Sprintf("%T", v)
+	return "?"
 }
+
+var errorIface = types.Universe.Lookup("error").Type().Underlying().(*types.Interface)
 
 // ---- heap scan ----
 
